@@ -298,9 +298,9 @@ func Run(p *Plan) int {
 		} else if !r.OK() {
 			if r.Violation {
 				// a violation on the model is a defect of the specification / design, not of the code
-				logf("INCONCLUSIVE: specification %s/%s violates %s on the model itself (spec defect, not a code verdict):\n%s", m.TLC.Module, m.TLC.Cfg, r.ViolationOf, r.Tail(40))
+				logf("INCONCLUSIVE: specification %s/%s violates %s on the model itself (spec defect, not a code verdict):\n%s", m.TLC.Module, m.TLC.Cfg, r.ViolationOf, r.ErrorText(60))
 			} else {
-				logf("INCONCLUSIVE: TLC failed on %s/%s (exit %d):\n%s", m.TLC.Module, m.TLC.Cfg, r.ExitCode, r.Tail(40))
+				logf("INCONCLUSIVE: TLC failed on %s/%s (exit %d):\n%s", m.TLC.Module, m.TLC.Cfg, r.ExitCode, r.ErrorText(60))
 			}
 			return 2
 		}
@@ -560,4 +560,10 @@ func Normalize(c Case) Case {
 		panic(err)
 	}
 	return out
+}
+
+// Recode converts a generic JSON value into a typed one.
+func Recode(in any, out any) {
+	b, _ := json.Marshal(in)
+	json.Unmarshal(b, out)
 }
